@@ -1383,7 +1383,7 @@ def inject_id_state(run):
     from lxml import etree
 
     r = run.rnd
-    kind = r.choice(["none", "gaps", "huge", "dups", "ctn", "nonnumeric", "slideids", "mixed"])
+    kind = r.choice(["none", "gaps", "huge", "dups", "ctn", "nonnumeric", "slideids", "mixed", "padded"])
     run.id_state = kind
     run.acc.classes["idstate:" + kind] = run.acc.classes.get("idstate:" + kind, 0) + 1
     prs = run.prs
@@ -1398,6 +1398,11 @@ def inject_id_state(run):
         for s in slides:
             for i, c in enumerate(xp(s._element, "//p:cNvPr")[1:]):
                 c.set("id", str(3 + i * r.choice([2, 3, 7])))
+    if kind == "padded":
+        # ids in another valid lexical form of xsd:unsignedInt (zero-padded), holes below them
+        for s in slides:
+            for i, c in enumerate(xp(s._element, "//p:cNvPr")[1:]):
+                c.set("id", "%0*d" % (r.choice([3, 4, 10]), 3 + i * r.choice([1, 2])))
     if kind in ("huge", "mixed"):
         s = r.choice(slides)
         c = xp(s._element, "//p:cNvPr")[-1]
